@@ -11,3 +11,6 @@ if [ ! -x .venv/bin/python ] || ! .venv/bin/python -c "import z3, six" 2>/dev/nu
   PIP_NO_INDEX=1 .venv/bin/pip install -q --no-index --find-links /opt/veriftools/wheels z3-solver
 fi
 .venv/bin/python -c "import z3, six; print('z3', z3.get_version_string())"
+# model self-test (pure-Python models of C-level operations vs CPython); the suite-on-instrumented-package
+# translator validation runs with every thorough check (./vcheck --selftest)
+PYTHONPATH="$(pwd)" .venv/bin/python -m symlomond.selftest --no-suite
